@@ -33,7 +33,8 @@ def plen(p, n):
 
 
 def nontrivial(case, obs):
-    return any(len(ps) > 1 for _, ps in (case.get("topo") or []))
+    t = case.get("topo")
+    return isinstance(t, list) and any(len(ps) > 1 for _, ps in t)
 
 
 def describe(case, obs):
@@ -43,7 +44,7 @@ def describe(case, obs):
 def gen_comodo(rng, naxes=None, positions=None, N=None):
     naxes = naxes or rng.randint(1, 3)
     axes = rng.sample(["X", "Y", "Z", "T"], naxes)
-    names = rng.sample(NAMES, 5 * naxes)
+    names = rng.sample(NAMES, 5 * naxes + 1)
     topo, dims = [], []
     for a in axes:
         n = N or rng.randint(1, 4)
@@ -206,7 +207,8 @@ def coq_case(case, obs):
     else:
         impl = f"(Ok {ctopo(obs['topo'])})"
     return ("{| c14_conv := " + C.copt(case["conv"], C.cstr) + f"; c14_sgrid := {sg}; c14_dims := {dims}" +
-            f"; c14_user := {C.copt(case['user'], ctopo)}; c14_expected := {exp}; c14_impl := {impl} |}}")
+            f"; c14_user := {C.copt(case['user'], ctopo)}; c14_expected := {exp}; c14_unspecified := " +
+            C.cbool(case["topo"] == "?") + f"; c14_impl := {impl} |}}")
 
 
 def distribution(cases, obs):
